@@ -153,6 +153,22 @@ fn main() {
       }
       print!("{}", out);
     }
+    Some("trees") => {
+      // trees <file>: each line is a FEEL expression over the names a b c d x y (bound in the parsing scope, so that they
+      // lex as single-word names); prints the Debug rendering of the parsed AstNode, or PARSE-ERROR.
+      let text = std::fs::read_to_string(&args[2]).unwrap_or_default();
+      let mut out = String::new();
+      for line in text.lines() {
+        let e = line.to_string();
+        let r = std::panic::catch_unwind(move || {
+          let scope = Scope::default();
+          for n in ["a", "b", "c", "d", "x", "y"] { scope.set_entry(&n.into(), Value::Number(FeelNumber::from_i128(1))); }
+          match dmntk_feel_parser::parse_expression(&scope, &e, false) { Ok(node) => format!("{:?}", node), Err(_) => "PARSE-ERROR".to_string() }
+        }).unwrap_or("PANIC".to_string());
+        out.push_str(&r); out.push('\n');
+      }
+      print!("{}", out);
+    }
     Some("scopes") => {
       // BOUNDED stand-in (not a proof): every stack of up to <max> contexts in which each context either binds `x` (to its
       // level) and/or `y z` or not: Scope::get_entry and Scope::search_deep must return the innermost binding, and
